@@ -4,7 +4,7 @@
 (* non-Gaussian likelihoods (gpytorch/utils/quadrature.py) and the         *)
 (* likelihood / method lattice that uses it.                               *)
 (*                                                                         *)
-(* Four parts, selected by the constant Part (one TLC run each).           *)
+(* The parts are selected by the constant Part (one TLC run each).         *)
 (*                                                                         *)
 (* "moments"  The DENOTATION of "integrating a polynomial against          *)
 (*   N(m, v)": for x = m + s z, z ~ N(0, 1), s = sqrt(v) rational,         *)
@@ -122,6 +122,24 @@
 (*   sign(y - f) / b (never 0).  The remaining densities are named; the    *)
 (*   replay holds log_prob of the returned distribution AND its gradient   *)
 (*   with respect to f to mpmath references over the whole lattice.        *)
+(*                                                                         *)
+(* "bigrules"  The RULE SIZE as a dimension ("polynomial degrees up to     *)
+(*   2*num_locs-1 and num_gauss_hermite_locs settings"): num_locs ranges   *)
+(*   over BigLocs (up to >= 100 nodes, beyond the sizes whose outermost    *)
+(*   weights are still float32 numbers), given as constructor argument,    *)
+(*   through settings.num_gauss_hermite_locs, or through a likelihood      *)
+(*   built under the setting; x the default dtype at construction          *)
+(*   (float64, float32) x mean / standard-deviation cells (mean = ratio x  *)
+(*   sd: centred, half a standard deviation to either side, mean-          *)
+(*   dominated) x degree class (the top even degree 2n-2, the top odd      *)
+(*   degree 2n-1, the middle n and n+1).  Demanded: the rule holds exactly *)
+(*   num_locs nodes and integrates the monomial exactly.  No rule with k   *)
+(*   nodes is exact at degree 2k (the square of its node polynomial is     *)
+(*   positive and is integrated to 0), so a MODELLED rule that keeps only  *)
+(*   BigKept[n] < n nodes (e.g. drops the nodes whose weight underflows    *)
+(*   float32) is refuted by the top-degree cases and only by them          *)
+(*   (BigNodesOK).  The exact moment is the recurrence ZM / IM above; the  *)
+(*   replay evaluates it in Python integers (TLC integers are 32 bit).     *)
 (***************************************************************************)
 EXTENDS Rational, Shapes, TLC, BackwardOps
 
@@ -142,7 +160,11 @@ CONSTANTS Part,
           ConHows,       \* "params": how the constraint gets in ("ctor": constructor argument, "register": register_constraint afterwards)
           ParamInline,   \* "params": set of <<likelihood, parameter>> whose MODELLED forward inlines the default transform instead of going through the registered constraint; {} for the code
           FDecades,      \* "condf": exponents e of the function-value magnitudes 10^e
-          CondFloor      \* "condf": the MODELLED conditional floors log-probabilities this far below the most likely class (0: no floor, the code)
+          CondFloor,     \* "condf": the MODELLED conditional floors log-probabilities this far below the most likely class (0: no floor, the code)
+          BigLocs,       \* "bigrules": numbers of nodes (reaching >= 100)
+          BigHows,       \* "bigrules": how num_locs gets in ("ctor": constructor argument, "setting": settings.num_gauss_hermite_locs, "likelihood": a likelihood built under the setting)
+          BigDtypes,     \* "bigrules": default dtype when the rule is constructed
+          BigKept        \* "bigrules": [n \in BigLocs |-> number of nodes the MODELLED rule holds]; n for the code
 
 VARIABLES c, out
 vars == <<c, out>>
@@ -506,6 +528,36 @@ CondFOut(x) ==
   ELSE [density |-> CondDensity(x.lik), par |-> CondPar(x.lik), f |-> CondF(x), y |-> CondY(x), offset |-> CondOffset(x),
         lin |-> IF x.lik = "Laplace" THEN LapLin(x) ELSE RZero, slope |-> IF x.lik = "Laplace" THEN LapSlope(x) ELSE RZero]
 
+\* ============================== big rules: the rule size as a dimension ============================
+BigDegClasses == {"top-even", "top-odd", "mid", "mid+1"}
+BigDegree(n, d) == CASE d = "top-even" -> 2 * n - 2 [] d = "top-odd" -> 2 * n - 1 [] d = "mid" -> n [] OTHER -> n + 1
+\* mean / standard deviation cells: sd rational (so that the moment is rational), mean = ratio x sd.  ratio 0: centred (odd moments vanish by symmetry);
+\* +-1/2: every term of the binomial expansion has one sign (no cancellation in the exact value); 8: the mean dominates (the top coefficient hardly matters)
+BigRatios == {RQ(0, 1), RQ(1, 2), RQ(-1, 2), RQ(8, 1)}
+BigSds    == {RQ(1, 4), RQ(1, 1), RQ(3, 2)}
+BigMean(x) == RMul(x.ratio, x.sd)
+\* sign structure of E (m + s z)^k = sum_j C(k, j) m^(k-j) s^j E z^j (only even j contribute)
+BigTerms(x) == LET k == BigDegree(x.n, x.deg)
+               IN IF k % 2 = 0 THEN "positive"
+                  ELSE IF IsZero(x.ratio) THEN "zero-by-symmetry" ELSE IF RLt(RZero, x.ratio) THEN "positive" ELSE "negative"
+\* no rule with k nodes is exact at degree 2k: prod_i (x - x_i)^2 > 0 almost everywhere, the rule gives 0
+MaxExactDegree(k) == 2 * k - 1
+BigCases == [n : BigLocs, how : BigHows, dtype : BigDtypes, ratio : BigRatios, sd : BigSds, deg : BigDegClasses]
+BigRulesOK ==
+  Part = "bigrules" =>
+    /\ BigDegree(c.n, c.deg) >= 0 /\ BigDegree(c.n, c.deg) <= 2 * c.n - 1            \* every case lies inside the property's quantifier: exactness is demanded
+    /\ out.demand = "exact" /\ out.nodes = c.n
+    /\ RLt(RZero, c.sd)
+    /\ (BigTerms(c) = "zero-by-symmetry") <=> (IsZero(BigMean(c)) /\ BigDegree(c.n, c.deg) % 2 = 1)
+    /\ \E d \in BigDegClasses : BigDegree(c.n, d) = MaxExactDegree(c.n)                \* the last degree of the quantifier is a case
+\* the modelled rule holds num_locs nodes, so it CAN be exact on every case; fails exactly on the top degrees when BigKept[n] < n
+BigNodesOK == Part = "bigrules" => BigDegree(c.n, c.deg) <= MaxExactDegree(BigKept[c.n])
+\* ... and exactly num_locs of them
+BigCountOK == Part = "bigrules" => BigKept[c.n] = c.n
+BigOut(x) == [m |-> BigMean(x), s |-> x.sd, degree |-> BigDegree(x.n, x.deg), nodes |-> x.n, demand |-> "exact", terms |-> BigTerms(x),
+              weights |-> IF x.dtype = "float64" THEN "positive, sum sqrt(pi)" ELSE "non-negative (float32 underflow), sum sqrt(pi)",
+              tolerance |-> IF x.dtype = "float64" THEN "float64 rounding of n positive terms" ELSE "float32 rounding + float32 underflow of the weights"]
+
 \* ============================== repeated differentiation of log_normal_cdf ========================
 \* zc: class of the argument tensor.  "tail": every entry below -1; "mixed": entries of all three branches; "notail": no entry below -1
 \* (LogNormalCDF.forward then stores no numerator / denominator).  For the Bernoulli route the argument is (2y - 1)(m + sqrt(2v) t_i) over the
@@ -538,6 +590,7 @@ Init ==
               [] Part = "lattice" -> LatticeCells
               [] Part = "params"  -> ParamCases
               [] Part = "condf"   -> CondFInit
+              [] Part = "bigrules" -> BigCases
               [] Part = "rediff"  -> RediffCases)
   /\ out = (CASE Part = "moments" -> MomentsOut(c)
               [] Part = "rule"    -> RuleOut(c)
@@ -545,6 +598,7 @@ Init ==
               [] Part = "lattice" -> LatticeOut(c)
               [] Part = "params"  -> ParamOut(c)
               [] Part = "condf"   -> CondFOut(c)
+              [] Part = "bigrules" -> BigOut(c)
               [] Part = "rediff"  -> RediffOut(BWStart("lncdf", RediffTail(c))))
 Next == IF Part = "rediff" THEN RediffNext ELSE UNCHANGED vars
 Spec == Init /\ [][Next]_vars
